@@ -402,14 +402,19 @@ public:
     context.job.getDescriptor()->getShortDescription(description);
     TracingExecutionQueueSubprocessStart(context.laneNumber, description.str());
 
+    bool wasCancelled;
     {
       std::unique_lock<std::mutex> lock(readyJobsMutex);
-      // Do not execute new processes anymore after cancellation.
-      if (cancelled) {
-        if (completionFn.hasValue())
-          completionFn.getValue()(ProcessResult::makeCancelled());
-        return;
-      }
+      wasCancelled = cancelled;
+    }
+
+    // Do not execute new processes anymore after cancellation. The completion
+    // is called without holding the lock, it may call back into the queue
+    // (e.g., to add a follow-up job).
+    if (wasCancelled) {
+      if (completionFn.hasValue())
+        completionFn.getValue()(ProcessResult::makeCancelled());
+      return;
     }
 
     // Form the complete environment.
